@@ -178,3 +178,84 @@ class NpProxy:
 
 def noprint(*a, **k):
     pass
+
+
+class SqrtTerm:
+    """coef * sqrt(rad) with coef, rad >= 0, kept unevaluated: comparisons between two such terms (or with a
+    scalar) are decided on the squares, which is exact over the reals and keeps the queries polynomial."""
+    __slots__ = ('coef', 'rad')
+
+    def __init__(self, rad, coef=None):
+        self.rad = SR.lift(rad)
+        self.coef = SR.const(1) if coef is None else SR.lift(coef)
+
+    def __mul__(self, o):
+        o = SR.lift(o)
+        if o is None:
+            return NotImplemented
+        if o < 0:
+            raise Inconclusive('negative multiple of an unevaluated square root')
+        return SqrtTerm(self.rad, self.coef * o)
+
+    __rmul__ = __mul__
+
+    def _sq(self):
+        return self.coef * self.coef * self.rad
+
+    def _cmp(self, o, op):
+        if isinstance(o, SqrtTerm):
+            a, b = self._sq(), o._sq()
+        else:
+            o = SR.lift(o)
+            if o is None:
+                return NotImplemented
+            if o < 0:
+                return op in ('>', '>=', '!=')
+            a, b = self._sq(), o * o
+        return {'<': a < b, '<=': a <= b, '>': a > b, '>=': a >= b, '==': a == b, '!=': a != b}[op]
+
+    def __lt__(self, o):
+        return self._cmp(o, '<')
+
+    def __le__(self, o):
+        return self._cmp(o, '<=')
+
+    def __gt__(self, o):
+        return self._cmp(o, '>')
+
+    def __ge__(self, o):
+        return self._cmp(o, '>=')
+
+
+def sqrt_term_model(x):
+    """np.sqrt for scalar arguments that are only compared afterwards (Doerfler's sanity assertion)."""
+    if isinstance(x, SR):
+        if x < 0:
+            raise ValueError('sqrt of a negative value')
+        return SqrtTerm(x)
+    return _np.sqrt(x)
+
+
+class ThetaModel:
+    """The marking parameter theta in (0,1), carried as q = theta^2 (a symbolic real): theta**2 -> q and
+    theta * sqrt(x) -> sqrt(q*x); nothing else is defined, so any other use of theta is reported."""
+    def __init__(self, q):
+        self.q = q
+
+    def __pow__(self, e):
+        if e == 2:
+            return self.q
+        raise Inconclusive('theta used with exponent %r' % (e, ))
+
+    def __mul__(self, o):
+        if isinstance(o, SqrtTerm):
+            return SqrtTerm(o.rad * self.q, o.coef)
+        raise Inconclusive('theta multiplied by %r (only theta**2 and theta*sqrt(.) are modelled)' % (o, ))
+
+    __rmul__ = __mul__
+
+    def __format__(self, spec):
+        return 'theta'
+
+    def __repr__(self):
+        return 'theta'
